@@ -121,6 +121,21 @@ def run_impl(c):
                     fails.append("not a permutation of the indices")
         if sd["yielded"] != k:
             fails.append(f"state says yielded={sd['yielded']} after {k}")
+        if ns is None and not repl:
+            # the sampler's generator is used by somebody else between iter() and the first next() (StatefulDataLoader draws its base seed
+            # from a shared generator at exactly that moment): the epoch is the one fixed at iter(), and the state must reproduce it
+            def foreign(sm):
+                itf = iter(sm)
+                torch.randint(high=10, size=(3,), generator=sm.generator)
+                return itf
+            full_f = list(foreign(mk(seed)))
+            itg = foreign(mk(seed))
+            head_g = [next(itg) for _ in range(k)]
+            it2g = iter(mk(seed + 999))
+            it2g.load_state_dict(itg.state_dict())
+            rest_g = list(it2g)
+            if head_g + rest_g != full_f:
+                fails.append(f"generator used by a third party between iter() and the first next(): resume at k={k} gives {head_g} + {rest_g}, the uninterrupted epoch is {full_f}")
         return dict(obs=[e1, sd["yielded"], rest, nxt], table=tbl, oracle="; ".join(fails) or None,
                     nontrivial=0 < k < total and total >= 2, key=[kind, n, repl, ns, k])
     if kind == "bs":
@@ -210,6 +225,14 @@ def run_impl(c):
             fails.append(f"epoch after the resumed one: {nxt} vs {ref}")
         if y0 != 0 or sd["yielded"] != j:
             fails.append(f"state right after iter() says yielded={y0}; after {j} says {sd['yielded']}")
+        # the other order of the two calls a training script makes after a restart: load_state_dict(), then set_epoch()
+        s3 = StatefulDistributedSampler(ds, num_replicas=R, rank=rank, shuffle=shuffle, seed=seed, drop_last=drop)
+        s3.load_state_dict(sd)
+        s3.set_epoch(epoch)
+        rest3 = list(iter(s3))
+        nxt3 = list(iter(s3))
+        if rest3 != ref[j:] or nxt3 != ref:
+            fails.append(f"load_state_dict() then set_epoch({epoch}): resume after {j} gives {rest3} (then {nxt3}), expected {ref[j:]} (then {ref})")
         return dict(obs=[e1, y0, sd["yielded"], rest, nxt], parent=ref, oracle="; ".join(fails) or None,
                     nontrivial=0 < j < len(ref) and len(ref) >= 2, key=[kind, n, R, rank, shuffle, drop, epoch, j])
     raise ValueError(kind)
